@@ -176,6 +176,12 @@ class C15(Check):
                     sub['name'] = 'col'
                 spec['build'] = 'python'
         if stratum == 'S-dual':
+            if rng.random() < 0.25:
+                # complex-valued models: the Python frontend receives complex constants as Python objects, YAML as text
+                spec = models.gen_net(rng, n_nodes=rng.randint(1, 4), libs=('cz',), build='python')
+                for e in _all_edges(spec):
+                    e[2] = {k: v for k, v in e[2].items() if v is not None}
+                return {'mode': 'dual', 'spec': spec, 'precision': 'complex128'}
             return {'mode': 'dual', 'spec': spec}
         gens = rng.randint(1, 6 if tier == 'thorough' else 4)
         fault = None
@@ -342,8 +348,11 @@ class C15(Check):
                 o.pop('decl', None)
             with open('dual.yaml', 'w') as f:
                 f.write(models.yaml_text(sp_ya))
-            obsv.submit(None, 'obs_spec', spec=sp_py)
-            obsv.submit(None, 'obs_yaml', path=os.path.join(cwd, f'dual/{spec["name"]}'))
+            prec = trace.get('precision', 'float64')
+            if prec != 'float64':
+                bump('dual_complex')
+            obsv.submit(None, 'obs_spec', spec=sp_py, precision=prec)
+            obsv.submit(None, 'obs_yaml', path=os.path.join(cwd, f'dual/{spec["name"]}'), precision=prec)
             a, b = obsv.collect()
             if a['scalar'].get('status') != 'ok':
                 res['discard'] = f"model refused: {a['scalar'].get('exc')}"
